@@ -120,6 +120,11 @@ def shards(tier):
         out.append({'block': blk, 'part': 'bitflip', 'nm': 6, 'direct': 1})
     out.append({'block': 'InttoFP_SP', 'part': 'pow2', 'direct': 1})
     out.append({'block': 'FPtoInt_SP', 'part': 'all', 'direct': 1})
+    # the block is added to a system that was already simulated (direct = 2): build, simulate, add the block, simulate on
+    for blk in BINARY:
+        out.append({'block': blk, 'part': 'bitflip', 'nm': 6, 'direct': 2})
+    out.append({'block': 'InttoFP_SP', 'part': 'pow2', 'direct': 2})
+    out.append({'block': 'FPtoInt_SP', 'part': 'all', 'direct': 2})
     return out
 
 
@@ -323,6 +328,10 @@ def build(block, _first=True, direct=False):
     hw = py4hw.HWSystem()
     a = hw.wire('a', 32)
     b = hw.wire('b', 32)
+    if direct == 2 and _first:
+        # the system exists and was simulated before the block under test is added to it
+        py4hw.Buf(hw, 'early', a, hw.wire('a_copy', 32))
+        hw.getSimulator().clk(1)
     if block == 'FPAdder_SP':
         outs = [hw.wire('r', 32)]
         py4hw.FPAdder_SP(hw, 'dut', a, b, outs[0])
@@ -342,7 +351,7 @@ def build(block, _first=True, direct=False):
         raise ValueError(block)
     if not _first:
         return hw
-    if direct:
+    if direct == 1:
         # the simulator class constructed directly (the path of the older examples) instead of hw.getSimulator()
         from py4hw.simulation import Simulator
         sim = Simulator(hw)
@@ -406,7 +415,7 @@ def _arith_detail(blk, x, y, r, exact):
 # ------------------------------------------------------------------ shard runners
 def run_binary(d):
     blk = d['block']
-    ev = build(blk, direct=bool(d.get('direct')))
+    ev = build(blk, direct=int(d.get('direct', 0)))
     col = Collector(d)
     evals = nontriv = skipped = 0
     outcomes = set()
@@ -495,7 +504,7 @@ def int_alphabet(d):
 
 
 def run_int_to_fp(d):
-    ev = build('InttoFP_SP', direct=bool(d.get('direct')))
+    ev = build('InttoFP_SP', direct=int(d.get('direct', 0)))
     col = Collector(d)
     evals = nontriv = 0
     outcomes = set()
@@ -518,7 +527,7 @@ def run_int_to_fp(d):
 
 
 def run_fp_to_int(d):
-    ev = build('FPtoInt_SP', direct=bool(d.get('direct')))
+    ev = build('FPtoInt_SP', direct=int(d.get('direct', 0)))
     col = Collector(d)
     evals = nontriv = skipped = 0
     outcomes = set()
@@ -563,7 +572,7 @@ def replay(v):
     """Plain re-evaluation of the recorded operands on a freshly built block, judged with the Fraction oracle."""
     d = v['shard']
     blk = d['block']
-    ev = build(blk, direct=bool(d.get('direct')))
+    ev = build(blk, direct=int(d.get('direct', 0)))
     steps, classes = [], []
     for t in v['trace']:
         got = ev(*t)
